@@ -10,10 +10,10 @@ EXTENDS Settings, Json
 CONSTANT Model      \* which cells are in play, see MCCells
 
 MCThreads == {1, 2, 3}
-MCCells == CASE Model = "mv" -> {"maxAlloc", "nameValidator"}
+MCCells == CASE Model \in {"mv", "mq"} -> {"maxAlloc", "nameValidator"}
              [] Model = "nn" -> {"nameValidator", "namespaceValidator"}
              [] Model = "hc" -> {"humanReadable", "comparator"}
-             [] Model = "hn" -> {"humanReadable", "nameValidator", "namespaceValidator"}
+             [] Model \in {"hn", "hq"} -> {"humanReadable", "nameValidator", "namespaceValidator"}
              [] Model = "ce" -> {"comparator", "enumSymbolValidator", "nameValidator"}
 
 \* thread t's own candidate for cell c
@@ -25,7 +25,8 @@ UseArgs(c) == CASE c = "maxAlloc"      -> {15}
                 [] c = "humanReadable" -> {0}
                 [] OTHER               -> {1}
 
-MCOpsOf(t) == {[op |-> "set", c |-> c, arg |-> Cand(c, t)] : c \in MCCells}
+\* "mq" (quick tier) and "hq": thread 3 only uses, threads 1 and 2 set and use
+MCOpsOf(t) == (IF Model \in {"mq", "hq"} /\ t = 3 THEN {} ELSE {[op |-> "set", c |-> c, arg |-> Cand(c, t)] : c \in MCCells})
               \cup UNION {{[op |-> "use", c |-> c, arg |-> a] : a \in UseArgs(c)} : c \in MCCells}
 
 \* the program executed so far, per thread, in call order (from the history of completed calls)
